@@ -30,7 +30,7 @@ import time
 import traceback
 
 VERIF = os.path.dirname(os.path.dirname(os.path.abspath(__file__)))
-EVIDENCE_DIR = os.path.join(VERIF, "evidence")
+EVIDENCE_DIR = os.environ.get("MC_EVIDENCE_DIR") or os.path.join(VERIF, "evidence")  # override: maintenance runs on mutants
 REPLAY_DIR = os.path.join(VERIF, "replays")
 KNOWN_FILE = os.path.join(VERIF, "known", "findings.json")
 MAX_VIOLATION_LINES = 15
